@@ -154,6 +154,7 @@ def graphs_of(case, lines):
         ld = []
         pruned = []
         groups = []
+        solve_in = None
         if len(g) > 0:
             # parallel-edge groups before prune (list order), keyed by the pair of gnodes
             gmap = {}
@@ -175,13 +176,18 @@ def graphs_of(case, lines):
                         [frs(e.size), bool(e.stretch)])
             groups = [[k[0], k[1], v['edges'], v['fwd'], v['rev']] for k, v in gmap.items()]
             g.add_start_nodes()
+            # the graph the solve stage works on: gnodes in dict order, forward and reverse edge lists in list order
+            def lab(gn):
+                return list(gn.name) if isinstance(gn.name, tuple) else [gn.name]
+            solve_in = [[lab(gn), [[lab(e.to_gnode), frs(e.size), bool(e.stretch), repr(float(e.size))] for e in gn.fedges],
+                         [[lab(e.to_gnode), frs(e.size), bool(e.stretch), repr(float(e.size))] for e in gn.redges]] for gn in g.values()]
             g.longest_path(g['start'], g['end'])
             for gnode in g.values():
                 nm = gnode.name
                 d = gnode.dist
                 ld.append([list(nm) if isinstance(nm, tuple) else [nm],
                            None if (d is None or d < 0) else frs(d)])
-        out[ax] = {'edges': edges, 'cnodes': cn, 'ldist': ld, 'pruned': pruned, 'groups': groups}
+        out[ax] = {'edges': edges, 'cnodes': cn, 'ldist': ld, 'pruned': pruned, 'groups': groups, 'solve_in': solve_in}
     raw_solve(sch, method, out)
     return out
 
